@@ -6,6 +6,14 @@ SPEC = {
         {"name": "c15", "pkg": "./zz_verif/c15", "run": ".", "shards": {"quick": 1, "thorough": 16}},
         # white-box overlay in xof/k12: lanes in {1,2,4} through newDraft10 + bookkeeping invariant
         {"name": "c15k12", "pkg": "./xof/k12", "run": "^TestZZC15", "whitebox": True, "shards": {"quick": 1, "thorough": 16}},
+        # quick tier also runs the cheap tests with GODEBUG=cpu.avx2=off: only there are the scalar x4/x2 fallbacks of
+        # simd/keccakf1600 (StateX4.Permute -> permuteScalarX4) and K12's one-lane path of the public constructor executed
+        # (-tags purego keeps IsEnabledX4() true and goes through permuteSIMDx4 = fallback with the turbo flag passed on)
+        {"name": "c15na", "pkg": "./zz_verif/c15",
+         "run": "^TestC15(_00Selftest|Permutations|OneShot|Split2|K12ManyChunks|Histories)$/^(sponge|xof|k12)$/^(TurboSHAKE128|TurboSHAKE256|K12D10|NewDraft10-ctx)$",
+         "configs": [c for c in CPU_OFF if c["name"] == "noavx2"], "tiers": ["quick"], "shards": {"quick": 1}},
+        {"name": "c15k12na", "pkg": "./xof/k12", "run": "^TestZZC15(_00Selftest|Histories|Split2)$", "whitebox": True,
+         "configs": [c for c in CPU_OFF if c["name"] == "noavx2"], "tiers": ["quick"], "shards": {"quick": 1}},
         # the same two binaries under -tags purego and GODEBUG=cpu.avx2=off (thorough tier only)
         {"name": "c15alt", "pkg": "./zz_verif/c15", "run": ".", "configs": _ALT, "tiers": ["thorough"], "shards": {"thorough": 4}},
         {"name": "c15k12alt", "pkg": "./xof/k12", "run": "^TestZZC15", "whitebox": True, "configs": _ALT, "tiers": ["thorough"], "shards": {"thorough": 4}},
